@@ -255,16 +255,16 @@ pub fn run(tier: Tier) -> i32 {
     let mut required = Vec::new();
     for m in 0..8 { for neg in [false, true] { for ld in 0..10u8 { for rc in [RemClass::Exact, RemClass::BelowHalf, RemClass::Tie, RemClass::AboveHalf] {
         if neg && rc == RemClass::Exact && ld == 0 { /* populated by -10/1 etc. */ }
-        required.push(code(0, m, neg, ld, rc, 0));
+        required.push(vec![code(0, m, neg, ld, rc, 0)]);
     }}}}
     for m in 0..8 { for neg in [false, true] { for rc in [RemClass::Exact, RemClass::BelowHalf, RemClass::Tie, RemClass::AboveHalf] {
-        required.push(code(1, m, neg, 0, rc, 0));
-        for path in [1u64, 2] { required.push(code(2, m, neg, 0, rc, path)); }
+        required.push(vec![code(1, m, neg, 0, rc, 0)]);
+        for path in [1u64, 2] { required.push(vec![code(2, m, neg, 0, rc, path)]); }
     }
     // with a shift above 38 the value is always strictly below half a unit
-    required.push(code(2, m, neg, 0, RemClass::BelowHalf, 4));
+    required.push(vec![code(2, m, neg, 0, RemClass::BelowHalf, 4)]);
     }}
-    for m in 0..8 { required.push(code(2, m, false, 0, RemClass::Exact, 0)); }
+    for m in 0..8 { required.push(vec![code(2, m, false, 0, RemClass::Exact, 0)]); }
 
     finish(Finish {
         run: &run,
